@@ -230,6 +230,10 @@ impl V {
 
 // ---------------------------------------------------------------- into V
 
+/// u128 shown as two raw limbs
+#[allow(non_camel_case_types)]
+pub struct u128w(pub u128);
+
 pub trait IntoV {
     fn into_v(self) -> V;
 }
@@ -321,9 +325,19 @@ impl<const N: usize> IntoV for [u8; N] {
         V::Bytes(self.to_vec())
     }
 }
+impl<const N: usize> IntoV for [u64; N] {
+    fn into_v(self) -> V {
+        V::U(self.to_vec())
+    }
+}
+impl IntoV for u128w {
+    fn into_v(self) -> V {
+        V::U(vec![self.0 as u64, (self.0 >> 64) as u64])
+    }
+}
 impl IntoV for Vec<u64> {
     fn into_v(self) -> V {
-        V::L(self.into_iter().map(|x| V::N(x as u128)).collect())
+        V::U(self)
     }
 }
 impl IntoV for std::cmp::Ordering {
